@@ -46,6 +46,7 @@ class Certs:
         self.ca_data = self.ca["trusted"].cert_pem.bytes().decode()
         self.other_ca_file = os.path.join(self.dir, "untrusted-ca.pem")
         self.ca["untrusted"].cert_pem.write_to_path(self.other_ca_file)
+        self.other_ca_data = self.ca["untrusted"].cert_pem.bytes().decode()
         self.leaf: dict[tuple[str, str], dict[str, typing.Any]] = {}
         self._ctx: dict[tuple[str, str], ssl.SSLContext] = {}
 
